@@ -247,6 +247,11 @@ class Generator:
             if len(m.generics) != 1 or num_types is None:
                 return []
             targs = list(num_types)
+            # only types that implement the bound (ToFixed / FromFixed)
+            for b in m.generic_bounds().get(m.generics[0], []):
+                impls = self._implementors(b)
+                if impls:
+                    targs = [t for t in targs if self._type_head(t) in impls]
         roots = []
         for targ in targs:
             subst = dict(subst0)
@@ -317,6 +322,21 @@ class Generator:
                 facts = doc_facts(f.get("docs"))
                 out.extend(self._method_roots(lay, self_txt, m, facts, num_types, "w", want, wrapping=True))
         return out
+
+    def _implementors(self, trait):
+        c = getattr(self, "_impl_cache", None)
+        if c is None:
+            c = self._impl_cache = {}
+        if trait not in c:
+            c[trait] = self.api.implementors(trait)
+        return c[trait]
+
+    @staticmethod
+    def _type_head(t):
+        m = re.match(r"^([IU])(\d+)F(\d+)$", t)
+        if m:
+            return "Fixed%s%d" % (m.group(1), int(m.group(2)) + int(m.group(3)))
+        return t
 
     @staticmethod
     def _impl_bounds(im):
